@@ -21,3 +21,70 @@ def reserved_param_name(case, detail):
     sh = case['shape']
     names = [sh['name']] + sh['posonly'] + sh['args'] + sh['kwonly'] + [x for x in (sh['varargs'], sh['varkw']) if x]
     return any(n in ('_call_', '_func_') for n in names) and detail.startswith('reserved-name:')
+
+
+# ---- C04 / C15 (OpenMetrics parser) ------------------------------------------------------------------------
+def c04b_int_not_double(case, detail):
+    """C04 second direction: the document holds an integer sample/exemplar value that is not exactly a double
+    (beyond 2^53 and not representable, or beyond the double range).  The parser keeps it as a Python int, the
+    exposition writes float(value): the value changes, or floatToGoString raises OverflowError."""
+    import re
+    doc = case.get('doc', '') if isinstance(case, dict) else ''
+    for tok in re.findall(r'(?<![\w.+-])[-+]?[0-9]{16,}(?![\w.])', doc):
+        try:
+            if float(int(tok)) != int(tok):
+                return True
+        except (OverflowError, ValueError):
+            return True
+    return False
+
+
+def _om_sample_heads(doc):
+    """[(text of a sample line up to the end of its label set, rest)] for brace-carrying sample lines"""
+    out = []
+    for line in doc.split('\n'):
+        if not line or line.startswith('#'):
+            continue
+        inq = esc = False
+        for i, c in enumerate(line):
+            if c == '"' and not esc:
+                inq = not inq
+            esc = (c == '\\') and not esc
+            if c == '}' and not inq:
+                if line[i + 1:i + 2] == ' ':
+                    out.append((line[:i + 1], line[i + 2:]))
+                break
+    return out
+
+
+def c15_duplicate_bucket_dropped(case, detail):
+    """C15: the accepted document repeats a bucket line (same name and label text, same timestamp text) with
+    another value - the duplicate suppression drops it before _check_histogram can see it."""
+    if not isinstance(case, dict) or 'accepted' not in str(detail):
+        return False
+    heads = _om_sample_heads(case.get('doc', ''))
+    seen = {}
+    for h, rest in heads:
+        if '_bucket' not in h:
+            continue
+        toks = rest.split(' ')
+        ts = toks[1] if len(toks) > 1 and toks[1] != '#' else None
+        if (h, ts) in seen and seen[(h, ts)] != toks[0]:
+            return True
+        seen.setdefault((h, ts), toks[0])
+    return False
+
+
+def c15_le_nan_bound(case, detail):
+    """C15: the accepted document has a bucket whose le is NaN in another spelling than 'NaN'."""
+    import math
+    import re
+    if not isinstance(case, dict) or 'accepted' not in str(detail):
+        return False
+    for v in re.findall(r'le="([^"]*)"', case.get('doc', '')):
+        try:
+            if v != 'NaN' and math.isnan(float(v)):
+                return True
+        except ValueError:
+            pass
+    return False
